@@ -51,7 +51,7 @@ def make_slice(fn, name, body_of_loop, stmt_range, params, returns):
     sub = _Subst(params)
     stmts = [sub.visit(x) for x in stmts]
     ret_expr = sub.visit(ret_expr)
-    f = ast.FunctionDef(name=name, args=ast.arguments(posonlyargs=[], args=[ast.arg(arg=p) for p in params.values()], kwonlyargs=[], kw_defaults=[], defaults=[]),
+    f = ast.FunctionDef(name=name, args=ast.arguments(posonlyargs=[], args=[ast.arg(arg=p) for p in dict.fromkeys(params.values())], kwonlyargs=[], kw_defaults=[], defaults=[]),
                         body=stmts + [ast.Return(value=ret_expr)], decorator_list=[], type_params=[])
     f.lineno = body[first].lineno
     f.col_offset = 0
